@@ -110,14 +110,14 @@ type c14Run struct {
 func runC14(e *Env) {
 	x := &c14Run{e: e, st: newC14Stats()}
 	e.R.Rule = "(a) seeded scripts of 4-8 clients x <=40 ops (Create/GetByJoinCode/Delete/Count) run concurrently against session.Store with join codes overridden to a 16-value space; a history counts when >= 2 operations of different clients overlapped in time (distinct by script hash); TTL-50ms rounds judged by brackets; collision histories (scripted shapes + seeded random) on a Store with a 50 ms lifetime where a Create's first drawn code belongs to a live / expired-unreaped / expired-looked-up / reaped session and the harness reaps the old holder, a history counts when >= 1 lookup got a must-find / must-fail verdict (distinct by shape / by op list); " +
-		"(b) rounds against the real thruserv (fresh server per round) = (limit configuration, scenario, burst size, prefill/variant); a round counts when it reached its verdict (distinct by that tuple); includes receiver-limit and host-left / expiry rounds after scripted histories with duplicate peer ids (same id reconnects, a receiver presents another receiver's or the host's id, the host reconnects), join-code collision rounds (dictated draws, holder state) and first-burst rounds (fresh source addresses whose very first requests are a start-barrier burst)"
+		"(b) rounds against the real thruserv (fresh server per round) = (limit configuration, scenario, burst size, prefill/variant); a round counts when it reached its verdict (distinct by that tuple); includes receiver-limit and host-left / expiry rounds after scripted histories with duplicate peer ids (same id reconnects, a receiver presents another receiver's or the host's id, the host reconnects; and with the session filled up to its receiver limit first: a role=receiver connection presents the host's id, the id of a second sender-role connection - once, repeatedly, as a burst -, a live or departed receiver's id), join-code collision rounds (dictated draws, holder state) and first-burst rounds (fresh source addresses whose very first requests are a start-barrier burst)"
 	x.partStore()
 	x.partStoreExpiry()
 	x.partStoreCollide()
 	x.partServer()
 
 	// samples: one per kind first, so that the few kept ones are diverse
-	order := []string{"history", "store-expiry", "store-collision", "collide", "dupid-recv", "dupid-hostleft", "first-burst-session-creates", "first-burst-ws-connects", "sessions", "receivers", "hostleft", "expiry", "msgsize", "msgrate", "wsconns", "iprate", "rate-ws-msgs", "rate-session-creates", "rate-ws-connects"}
+	order := []string{"history", "store-expiry", "store-collision", "collide", "dupid-recv", "dupid-recv-full", "dupid-hostleft", "first-burst-session-creates", "first-burst-ws-connects", "sessions", "receivers", "hostleft", "expiry", "msgsize", "msgrate", "wsconns", "iprate", "rate-ws-msgs", "rate-session-creates", "rate-ws-connects"}
 	for pass := 0; pass < 2; pass++ {
 		for _, k := range order {
 			if len(x.st.samples[k]) > pass {
@@ -919,6 +919,10 @@ func (x *c14Run) partServer() {
 		if only == "" || strings.Contains(","+only+",", ",dupid-recv,") {
 			for _, v := range c14DupRecvVariants {
 				e.R.Require(x.st.get("dupid-recv:decided:"+v.Name) >= 1, fmt.Sprintf("no decided receiver-limit round with the duplicate-peer-id history %s", v.Name))
+				if c14DupFull(v.Name) {
+					k := "dupid-recv:full:session_seen_full_before_the_id_was_presented:" + v.Name
+					e.R.Require(x.st.get(k) >= 1, fmt.Sprintf("receiver-limit history %s: in no round was the session seen full (a fresh receiver refused) before the registered peer id was presented", v.Name))
+				}
 			}
 			e.R.Require(x.st.get("dupid-recv:rounds_in_which_the_limit_refused_a_fill") >= len(c14DupRecvVariants)/2, "duplicate-peer-id receiver rounds: the limit was hardly ever reached by the fill")
 		}
